@@ -260,7 +260,10 @@ def run_chunk(cmd, part, per_op_timeout):
     i = 0
     while i < len(part):
         sub = part[i:]
-        out, problem = run_lines(cmd, sub, timeout=max(60.0, per_op_timeout * 4 + len(sub) * 0.02))
+        # ops that are expensive by design (long sessions, floods) get their own allowance: a loaded machine must not
+        # turn them into HANG answers
+        heavy = sum(1 for l in sub if l.startswith(("BUILDREP", "XSCAN", "XITER", "BIGSCAN", "BIGFRAME")))
+        out, problem = run_lines(cmd, sub, timeout=max(120.0, per_op_timeout * 4 + len(sub) * 0.05 + heavy * 90.0))
         if problem is None and len(out) == len(sub):
             answers.extend(out)
             break
